@@ -230,6 +230,7 @@ func runC05Layers(c *Ctx) {
 		"parameter objects over a grid incl. negative / zero / huge values; non-trivial = at least two passes and two layers (layers), non-default parameters (params)"
 	geoFinalize(c)
 	geoAllocators(c)
+	geoT1Rates(c)
 	geoParams(c)
 }
 
@@ -402,6 +403,90 @@ func geoAllocators(c *Ctx) {
 			} else if bad := checkComplete(k, cb); bad != "" {
 				c.R.Fail("oracle", "geo_final_layer_complete", "layers:incomplete:"+name, bad, in)
 			}
+		}
+	})
+}
+
+// geoT1Rates: the premise rates_ok of C05_final_layer_complete (the postcondition of
+// t1.normalizePassRates) evaluated on the real T1 encoder as encodeLayeredCodeBlock calls it,
+// followed by a real allocator and the finaliser with the lossless layer forced.
+func geoT1Rates(c *Ctx) {
+	rng := c.Rng.Fork()
+	n := c.N(500, 8000)
+	type tc struct {
+		W, H, Amp, Band, NumLayers int
+		Seed                       uint64
+	}
+	cases := make([]tc, n)
+	for i := range cases {
+		cases[i] = tc{W: rng.Range(1, 16), H: rng.Range(1, 16), Amp: rng.Pick(1, 3, 40, 255, 4000, 70000), Band: rng.Range(0, 3), NumLayers: rng.Range(2, 6), Seed: rng.U64()}
+		if i%7 == 0 {
+			cases[i].W, cases[i].H = rng.Pick(32, 64), rng.Pick(4, 32, 64)
+		}
+	}
+	ParallelFor(n, c.Work, func(i int) {
+		k := cases[i]
+		r := NewRand(k.Seed)
+		data := make([]int32, k.W*k.H)
+		maxAbs := 0
+		for j := range data {
+			v := r.Range(-k.Amp, k.Amp)
+			if r.Intn(5) == 0 {
+				v = 0
+			}
+			data[j] = int32(v) << 6 // T1 NMSEDEC fractional bits, as encodeCodeBlock
+			if v < 0 {
+				v = -v
+			}
+			if v > maxAbs {
+				maxAbs = v
+			}
+		}
+		c.R.Case(fmt.Sprintf("t1rates:%+v", k), maxAbs > 0, fmt.Sprintf("geo.t1rates.amp.%d", k.Amp))
+		numbps := 0
+		for (1 << numbps) <= maxAbs {
+			numbps++
+		}
+		numPasses := 1
+		if numbps > 0 {
+			numPasses = 3*numbps - 2
+		}
+		enc := t1.NewT1Encoder(k.W, k.H, 0)
+		enc.SetOrientation(k.Band)
+		enc.SetNMSEDecFractionalBits(6)
+		enc.SetDistortionWeight(1.0 / 8192.0)
+		var passes []t1.PassData
+		var cd []byte
+		var err error
+		if p, msg := Safely(func() { passes, cd, err = enc.EncodeLayered(data, numPasses, 0, nil, 0) }); p {
+			c.R.Fail("oracle", "geo_t1_rates_ok", "t1rates:panic", msg, k)
+			return
+		}
+		if err != nil || len(passes) == 0 {
+			return
+		}
+		c.R.Oracle("geo_t1_rates_ok")
+		prev := 0
+		for pi, p := range passes {
+			e := passRate([2]int{p.Rate, p.ActualBytes})
+			if e < prev || e < 0 || e > len(cd) || p.ActualBytes > p.Rate || p.ActualBytes < 0 {
+				c.R.Fail("oracle", "geo_t1_rates_ok", "t1rates:not-normalised", fmt.Sprintf("pass %d: Rate %d ActualBytes %d, previous rate %d, len(data) %d", pi, p.Rate, p.ActualBytes, prev, len(cd)), k)
+				return
+			}
+			prev = e
+		}
+		blocks := [][]t1.PassData{passes}
+		alloc := jpeg2000.AllocateLayersRateDistortionPasses(blocks, k.NumLayers, float64(prev)*float64(r.Range(1, 10))/10)
+		fk := finCase{RD: i%2 == 0, CD: cd, NumLayers: k.NumLayers, Append: true}
+		for _, p := range passes {
+			fk.Passes = append(fk.Passes, [2]int{p.Rate, p.ActualBytes})
+		}
+		cb := &t2.PrecinctCodeBlock{NumPassesTotal: len(passes), Passes: passes, CompleteData: cd}
+		c.R.Oracle("geo_final_layer_complete")
+		if p, msg := Safely(func() { jpeg2000.VerifFinalizeBlock(cb, k.NumLayers, alloc, 0, true, fk.RD) }); p {
+			c.R.Fail("oracle", "geo_final_layer_complete", "layers:panic", msg, k)
+		} else if bad := checkComplete(fk, cb); bad != "" {
+			c.R.Fail("oracle", "geo_final_layer_complete", "layers:incomplete:t1", bad, k)
 		}
 	})
 }
